@@ -815,7 +815,7 @@ def transient_io_fault(nth=1):
         h5py.File.__init__ = orig
 
 
-ENV_KEYS = ("NSSVERIF_PRELUDE", "NSSVERIF_R_EARTH", "LC_ALL", "LANG", "LC_CTYPE", "PYTHONUTF8", "PYTHONCOERCECLOCALE", "PYTHONIOENCODING", "TZ", "PYTHONOPTIMIZE", "PYTHONWARNINGS")
+ENV_KEYS = ("PYTHONHASHSEED", "NSSVERIF_PRELUDE", "NSSVERIF_R_EARTH", "LC_ALL", "LANG", "LC_CTYPE", "PYTHONUTF8", "PYTHONCOERCECLOCALE", "PYTHONIOENCODING", "TZ", "PYTHONOPTIMIZE", "PYTHONWARNINGS")
 
 
 def other_environment_body(modname, base_subcheck, envs):
@@ -850,7 +850,7 @@ def other_environment_body(modname, base_subcheck, envs):
 # locale and in another time zone
 ENVS_OPTIMIZED = [
     {"PYTHONOPTIMIZE": "1"},
-    {"PYTHONOPTIMIZE": "2"},
+    {"PYTHONOPTIMIZE": "2", "PYTHONHASHSEED": "4242"},
     {"PYTHONOPTIMIZE": "1", "LC_ALL": "C", "LANG": "C", "PYTHONUTF8": "0", "PYTHONCOERCECLOCALE": "0", "TZ": "Asia/Kolkata"},
 ]
 
